@@ -89,7 +89,8 @@ def stepOp (c : Codec) (limit : Nat) (n : Node) : Op → Node × List Step
     let s' := cleanup now n.peerList n.snd
     let deleted := (n.snd.files.filter (fun f => !n.peerList.any (needsFile now f.name))).map (·.name)
     let n' := { n with snd := s' }
-    (n', [⟨.timer now deleted, n'.pos⟩])
+    let outs := n.peerList.map (fun q => match timerSetPos q with | some v => [OutObs.l v] | none => [])
+    (n', [⟨.timer now deleted outs, n'.pos⟩])
   | .ack p v =>
     let n' := n.setPeer p (fun q => { q with lpos := setLogPos q.lpos v })
     (n', [⟨.ack p v, n'.pos⟩])
@@ -129,5 +130,31 @@ def ClockOK : Int → List Op → Prop
       match op.time with
       | some now => t < now ∧ ClockOK now r
       | none => ClockOK t r
+
+/-! ## two nodes (F-C12c): what one node's ReplayLog queues is handled by the other node's MessageHandler -/
+
+/-- One end of a link, reduced to what matters: the records on its disk in replay order (file name, record),
+    and its two positions for the peer. -/
+structure PNode where
+  view : List (Int × Entry)
+  lpos : Int
+  rpos : Int
+  deriving DecidableEq, Repr
+
+/-- ReplayLog of `n` towards its peer (one pass; further passes send nothing, `second_pass_empty`). -/
+def PNode.replayOut (vis : Nat → Bool) (n : PNode) : List Out :=
+  (replayEntries vis ⟨n.lpos, n.lpos, [], 0⟩ n.view).out
+
+/-- MessageHandler of `n` for one message of the peer's queue: an event passes the `ts` filter and is recorded
+    (jsonrpcconnection.cpp:304-313); log::SetLogPosition goes to SetLogPositionHandler (:376-389). -/
+def PNode.handle (n : PNode) : Out → PNode
+  | .msg e => { n with rpos := (recv n.rpos (some e.ts)).2 }
+  | .setPos v => { n with lpos := setLogPos n.lpos v }
+
+/-- The events of `out` the receiver `n` processes (not dropped by its filter). -/
+def PNode.accepted (n : PNode) : List Out → List Entry
+  | [] => []
+  | .msg e :: r => if (recv n.rpos (some e.ts)).1 then e :: (n.handle (.msg e)).accepted r else (n.handle (.msg e)).accepted r
+  | .setPos v :: r => (n.handle (.setPos v)).accepted r
 
 end Icinga.C12
